@@ -33,7 +33,17 @@ def make_seed(i, p):
         return [lib.seq_abs([(0, 12, p, 0, 64), (12, 24, p + 4, 0, 50)], [], 60), lib.seq_abs([(0, 6, p + 7, 0, 70)], [], 30), []]
     if i == 1:   # two 3/4 bars and an empty second track
         return [lib.seq_abs([(0, 12, p, 0, 64), (66, 12, p + 2, 0, 64)], [("ts", 0, 3, 4)], 144), Sequence(), []]
-    return [lib.seq_rel([(6, 6, p, 0, 64)], [("ts", 0, 4, 4)], 50), lib.seq_rel([(0, 36, p + 1, 0, 64), (90, 12, p + 3, 0, 9)], [], None), []]
+    if i == 2:
+        return [lib.seq_rel([(6, 6, p, 0, 64)], [("ts", 0, 4, 4)], 50), lib.seq_rel([(0, 36, p + 1, 0, 64), (90, 12, p + 3, 0, 9)], [], None), []]
+    if i == 3:   # 6/8 with a note that is never closed (its release is missing) and a shorter second track
+        a = lib.seq_abs([(0, 12, p, 0, 64), (40, 12, p + 2, 0, 64)], [("ts", 0, 6, 8)], None)
+        a.add_absolute_message(lib.on(60, p + 5, 0, 70))
+        return [a, lib.seq_abs([(0, 6, p + 7, 0, 70)], [], 30), []]
+    if i == 4:   # 3/2: a bar shorter than its capacity, beside an empty track
+        return [lib.seq_abs([(0, 24, p, 0, 64), (200, 12, p + 1, 0, 3)], [("ts", 0, 3, 2)], 230), Sequence(), []]
+    # 7/8 then 5/16, ticks in the hundreds, unequal lengths
+    return [lib.seq_abs([(0, 36, p, 0, 64), (90, 6, p + 2, 0, 64)], [("ts", 0, 7, 8), ("ts", 84, 5, 16)], 120),
+            lib.seq_rel([(300, 12, p + 3, 0, 64)], [], None), []]
 
 
 def _split(w, i):
@@ -45,11 +55,15 @@ def _split(w, i):
         w[i] = pieces[0]
 
 
-def _bar(w, i):
+def _bar(w, i, n=4, d=4):
     dur = lib.view_rel(w[i])[1]
-    b = Bar(w[i], 4, 4)
+    b = Bar(w[i], n, d)
     w[i] = b.sequence
-    return "bar_padded" if dur < 96 else None
+    return "bar_padded" if dur < 96 * n // d else None
+
+
+def _barsig(n, d):
+    return lambda w, i: _bar(w, i, n, d)
 
 
 def _bars(w, q):
@@ -109,6 +123,10 @@ UNARY = {
     "scale3": _u(lambda s: s.scale(3, quantise_afterwards=False), "scaled"),
     "split30": _split,
     "bar44": _bar,
+    "bar32": _barsig(3, 2),
+    "bar22": _barsig(2, 2),
+    "bar78": _barsig(7, 8),
+    "bar516": _barsig(5, 16),
 }
 BINARY = {
     "copyA_to_B": lambda w: w.__setitem__(1, w[0].copy()),
@@ -128,11 +146,11 @@ OPNAMES = [f"{n}:{i}" for n in UNARY for i in (0, 1)] + list(BINARY)
 def context(tier, seed):
     depth = 3 if tier == "quick" else 4
     return {"p": [60, 40, 90][seed % 3], "depth": depth, "tier": tier,
-            "bounds": {"depth": depth, "operations": OPNAMES, "seeds": 3}}
+            "bounds": {"depth": depth, "operations": OPNAMES, "seeds": 6}}
 
 
 def seeds(ctx):
-    return 3
+    return 6
 
 
 def apply(w, name):
